@@ -42,7 +42,7 @@ PROPS = {
                    "each key's rendering on the real crate is compared with the public formatter applied to the public getter at the same virtual instant.",
         level_note=COMMON_NOTE + "The value clause is decided by the oracle on generated states (keys x states x histories), not by a theorem about format_state."),
     "C13": dict(
-        streams=[dict(cmd="C13")],
+        streams=[dict(cmd="C13"), dict(cmd="C13R", oracle_only=True)],
         technique="Lean 4 theorems over an abstract IEEE-style arithmetic record (monotone rounding fixing small naturals) + bit-exact correspondence with hardware f32",
         level_text="Cell count, shape, zero/full and monotonicity of the bar geometry are proved for every width, position, length and character set over any arithmetic "
                    "satisfying the stated rounding laws; the executable model on hardware Float32 reproduces the rendered cells of the real crate exactly.",
@@ -117,7 +117,7 @@ PROPS.update({
         level_note=COMMON_NOTE,
         ),
     "C12": dict(
-        streams=[dict(cmd="C12")],
+        streams=[dict(cmd="C12"), dict(cmd="C12W", oracle_only=True)],
         technique="Lean 4 theorems about the padding/truncation function on glyph lists + output-exact differential correspondence",
         level_text="Exact width and placement of padded fields and the non-truncating case are proved for all contents; outputs of the real crate equal the model's.",
         level_note=COMMON_NOTE,
